@@ -6,3 +6,5 @@ class Plugin(HistPlugin):
     id = 'C14'
     extra_import = 'HistProps HistPropCheck'
     check_fn = 'c14_check'
+    FINDING_BITS = 2 | 8
+    UNDECIDED_BITS = 1 | 4
